@@ -109,6 +109,30 @@ def rep_specs(tier: str):
     return out
 
 
+def trivia_specs(tier: str):
+    """Stack operations next to implicit rules that push and drop themselves (COMMENT = _{ PUSH("#") ~ "!" ~ DROP }):
+    a COMMENT attempt that fails after its PUSH must leave the stack as it was, in every mode."""
+    k = 2
+    env = gast.Env(())
+    inners = gast.exprs_upto(k, T_ST, U_ST, ("seq", "alt"), env)
+    triv = families.TRIVIA["cm_stack"]
+    ins = families.inputs("a#! ", 4 if tier == "thorough" else 3)
+    starts = []
+    for pre in ((), (("pushlit", "a"),)):
+        for w in ("none", "alt", "opt"):
+            for inner in inners:
+                for failer in (False, True):
+                    body_inner = ("seq", (inner, NEVER)) if failer else inner
+                    mid = wrap(w, ("grp", body_inner) if failer or inner[0] in ("seq", "alt") else body_inner) if w != "none" else body_inner
+                    # S("a") ~ ... : a sequence boundary before and after the stack operation, so that implicit rules run there
+                    starts.append((f"r{len(starts)}", "", ("seq", tuple(pre) + (S("a"), mid, S("a")) + PROBE)))
+    out = []
+    for i in range(0, len(starts), BATCH):
+        grp = starts[i:i + BATCH]
+        out.append(engine.Spec(triv + tuple(grp), [g[0] for g in grp], ins, "zero", "stack-with-trivia(cm_stack)"))
+    return out
+
+
 HISTORY_DEPTH = {"quick": {"Stack": 9, "ParserState": 7}, "thorough": {"Stack": 12, "ParserState": 9}}
 
 
@@ -132,16 +156,17 @@ def run(tier: str) -> int:
     k, L = BOUNDS[tier]
     hist = history_part(tier)
     return gc.run_model_check(
-        C05(), specs(tier) + rep_specs(tier), tier, "model_checking",
+        C05(), specs(tier) + rep_specs(tier) + trivia_specs(tier), tier, "model_checking",
         bounds=[{"inner_size": k, "L": L, "alphabet": "ab", "pre": list(PRES), "wrappers": list(WRAPS), "failer": [False, True]}],
         rule="start rules PRE ~ W[INNER ~ FAILER] ~ PEEK_ALL ~ EOI: PRE in {nothing, PUSH_LITERAL(\"a\"), PUSH(\"a\"|\"b\") ~ PUSH(\"a\"|\"b\")}, INNER every expression with <= k nodes over "
              "{\"a\", PUSH(\"a\"|\"b\"), PUSH_LITERAL(\"b\"), POP, PEEK, DROP, PEEK_ALL, POP_ALL, PEEK[..1], PEEK[-1..], PEEK[0..], PEEK[1..2], PEEK[..0]} with ? * & ! ( ) ~ |, W in {none, (. | \"\"), ?, *, &, !}, "
              "FAILER in {nothing, a literal that cannot match}; x every string over {a,b} up to length L; four modes against the reference model (persistent stack: every abandoned attempt and every predicate is undone by construction). "
              "Plus the stack-repetition family: after 2-3 pushes of possibly empty entries (PUSH(\"a\"?), PUSH_LITERAL(\"\"), PUSH(\"a\"|\"b\")), every repetition ? * + {2} {1,} {,2} {1,2} of an operand that can succeed without consuming input "
              "(DROP, (DROP ~ \"a\"?), (\"a\"? ~ DROP), (&DROP ~ POP), (&DROP ~ PEEK ~ DROP), (\"b\" ~ DROP | DROP)), followed by the probe, alone and inside an abandoned alternative. "
+             "Plus stack-with-trivia: \"a\" ~ W[INNER ~ FAILER] ~ \"a\" ~ PEEK_ALL ~ EOI with INNER <= 2 nodes, under WHITESPACE = _{ \" \" } and COMMENT = _{ PUSH(\"#\") ~ \"!\" ~ DROP } (an implicit rule that pushes before it can fail). "
              "UNSPEC cases (PEEK/POP on an empty stack, out-of-range slice) are judged only by 'no exception other than PestParsingError'. Non-trivial: the reference run backtracked or returned pairs. "
              "The history-level half of the quantifier is C09's BFS over ParserState.checkpoint/ok/restore x push/drop.",
-        assumptions=["no implicit trivia in this family (trivia x stack interplay is exercised relationally by C01/C02)"],
+        assumptions=["implicit trivia only in the stack-with-trivia family (one configuration)"],
         extra_cov={"history_level": {k2: v for k2, v in hist.items() if k2 != "violations"}}, extra_violations=hist["violations"],
     )
 
